@@ -9,7 +9,11 @@ VARIABLES tid
 Trace == ndJsonDeserialize(IOEnv.TRACE_FILE)
 Report(kind, t, clauses) == PrintT("@@" \o ToJson([kind |-> kind, tid |-> t, clauses |-> clauses]))
 SameAnswer(py, js) == py.t = js.t /\ (py.t = "exc" \/ py.v = js.v)
-Check(t) == LET r == Trace[t] IN SameAnswer(r.py, r.js) \/
+\* An input outside the documented forms (r.opt: decimal comma, a convenience the JavaScript side adds) is not in the
+\* shared domain unless both sides answer: either side may refuse it (an exception, or NaN on the JavaScript side).
+Refuses(x) == x.t \in {"exc", "nonfinite"}
+InSharedDomain(r) == "opt" \notin DOMAIN r \/ ~r.opt \/ (~Refuses(r.py) /\ ~Refuses(r.js))
+Check(t) == LET r == Trace[t] IN ~InSharedDomain(r) \/ SameAnswer(r.py, r.js) \/
             Report("viol", t, {IF r.py.t = "exc" THEN "js_returns_where_python_refuses"
                                ELSE IF r.js.t = "exc" THEN "js_refuses_where_python_returns"
                                ELSE IF r.py.t # r.js.t THEN "different_result_type" ELSE "different_value"})
